@@ -23,6 +23,8 @@ pub mod lib_ {
     { unimplemented!() }
 
 //@fn lib::fill_buf ret=res tags=C14,C03,C06 vis=pub
+//@local initial_size ord=0 kind=let
+//@local num_read ord=1 kind=letmut
 //@spec
     requires
         old(reader).wf(),
